@@ -42,6 +42,9 @@ def obligations():
     for scheme in ("ca", "closest-heavy", "sidechain"):
         o.append(Obl(f"C16.contacts.{scheme}.nonperiodic", "py", H, "contacts", ["mdtraj.geometry.contact.compute_contacts"], "same topology, periodic=False", "every distance is measured under the caller's periodic flag; same minima", 300,
                      params={"scheme": scheme, "mode": "explicit", "soft_min": False, "periodic": False}))
+    for scheme in ("ca", "closest"):
+        o.append(Obl(f"C16.contacts.{scheme}.all_residues", "py", H, "contacts", ["mdtraj.geometry.contact.compute_contacts"], "same topology (one water, one residue without N), contacts='all', ignore_nonprotein=False",
+                     "one label per distance column; scheme 'ca' reports exactly the pairs whose residues both have a CA, the other schemes every pair at least three residues apart", 600, params={"scheme": scheme, "mode": "all", "ignore_nonprotein": False}))
     o.append(Obl("C16.rdf_t.chunks", "xh", "harness.c16_py", "rdf_t_chunks", ["mdtraj.geometry.rdf.compute_rdf_t"], "3..4 atoms (3..6 pairs + self pairs), n_concurrent_pairs 1..11, self_correlation on/off",
                  "every pair is handed to the distance routine exactly once and the result does not depend on the chunk size", 300))
     return o
